@@ -348,6 +348,48 @@ func runC04(c *Ctx) {
 			}
 		}
 	}
+	// addon lists: every ordered pair of addons, an addon named twice, and the pair
+	// with each third one in front — what calculation adds to the list (required
+	// addons) must already be complete and stable after the first pass (§10.10)
+	if b, err := os.ReadFile(filepath.Join(ev.Repo(), "examples/es/out/invoice-es-es.json")); err == nil {
+		doc, _ := gx.DocJSON(b)
+		var addons []string
+		for a := range w.defs.Addons {
+			addons = append(addons, a)
+		}
+		sort.Strings(addons)
+		base, _ := jmut.Parse(doc)
+		base.Del("totals")
+		base.Del("customer")
+		for _, l := range base.Get("lines").A {
+			l.Del("taxes")
+		}
+		add := func(list ...string) {
+			n := base.Clone()
+			ar := jmut.Ar()
+			for _, a := range list {
+				ar.A = append(ar.A, jmut.S(a))
+			}
+			n.Set("$addons", ar)
+			inputs = append(inputs, c04input{Origin: "addon-list:" + strings.Join(list, "+"), Data: n.Bytes(), Class: "addon-list"})
+		}
+		for i, a := range addons {
+			add(a, a)
+			for j, b2 := range addons {
+				if i == j {
+					continue
+				}
+				add(a, b2)
+				if i < j {
+					third := addons[(i+j)%len(addons)]
+					if third != a && third != b2 {
+						add(third, a, b2)
+						add(a, b2, third)
+					}
+				}
+			}
+		}
+	}
 	// regime × tag × customer country: every tag a regime (or an addon) offers for
 	// invoices, with a customer at home, abroad under another regime, and abroad
 	// without one; the first line names a rate of the regime's first category by key
